@@ -70,12 +70,12 @@ META = {
              ded='for factors of every rank and attribute order: the constructor preconditions (axis labelled by the attribute at that position / same size) and numpy preconditions (moveaxis destinations in range and distinct, broadcast sizes, operand axes aligned) hold at every call site of the 16 listed methods. '
                  'sum/logsumexp/max(attrs): the result lives on exactly the attributes of self not in attrs, in the order of self, with the invariant re-established — carried by the lemma "position p is a removed axis iff self.attrs[p] is a marginalised attribute", discharged as an obligation of its own (from the contract of Domain.axes, distinctness and the membership axioms) and by model-based instantiation. '
                  'project(attrs): axes in the requested order, sizes of self, invariant (modular over the contracts of marginalize, sum/logsumexp and transpose). condition and datavector: bounded only.',
-             trusted=['label-level extern contracts of reshape / moveaxis / broadcast_to / elementwise ops (pv/vc/ndlabels.py)', 'Domain contracts of C15', 'ASSUMED: distinctness and config law of Domain.merge results (not proved, bounded in C15)',
+             trusted=['label-level extern contracts of reshape / moveaxis / broadcast_to / elementwise ops (pv/vc/ndlabels.py)', 'Domain contracts of C15 (incl. distinctness and config law of Domain.merge results, proved there)',
                       'sequence-theory lemmas: pigeonhole, membership in concatenations / equal sequences; selection uniqueness (two strictly increasing enumerations of the same positions coincide) when Domain.marginalize\'s result is introduced over numpy\'s kept positions']),
  'C15': dict(technique=DED + ': Domain algebra over symbolic attribute sequences of every length (membership, first index, order-preserving selection, concatenation, products); Dataset.project by site contracts; Dataset.datavector by bounded counting oracle',
-             ded='Dataset.project: the requested column list reaches the frame selection and the domain projection unchanged (a bare str/int wrapped), and the result is built from exactly those with the weights carried over. Domain.__init__, project (3 spellings), transpose, marginalize, invert, canonical, axes, merge, contains, size (2 spellings), __eq__, __contains__, __getitem__, __len__, fromdict against set / order / product laws, with the representation invariant (lengths agree, attributes distinct, config matches shape).',
+             ded='Dataset.project: the requested column list reaches the frame selection and the domain projection unchanged (a bare str/int wrapped), and the result is built from exactly those with the weights carried over. Domain.__init__, project (3 spellings), transpose, marginalize, invert, canonical, axes, merge, contains, size (2 spellings), __eq__, __contains__, __getitem__, __len__, fromdict against set / order / product laws, with the representation invariant (lengths agree, attributes distinct, config matches shape) — for merge too: distinctness of the merged attribute list by the concat-distinct lemma (machine-checked by z3 in pv/vc/lemmas.py on every run and listed as an obligation), the config law from it with a hinted proof.',
              trusted=['sequence theory of pv/vc/arrays.py (quantified facts instantiated by E-matching; lemmas: product over concatenation, equal sequences have equal products/members)', 'numpy.histogramdd and pandas column selection (bounded tier)'],
-             assumptions=['NOT proved: distinctness and config law of merge\'s result (instantiation search does not converge); Domain.sort (sorted is an extern)']),
+             assumptions=['Domain.sort is not under contract (sorted is an extern)']),
  'C16': dict(technique=DED + ' for the normalisation clause (every stored table sums to the total, for arbitrary clique sets); exactness on acyclic structures by bounded run-time contract',
              ded='generalized_belief_propagation, FactorGraph.clique_marginals, FactorGraph.project: every table stored in the returned dict / returned sums to self.total (L-norm).',
              trusted=['exp/log identities over the reals'], assumptions=['finiteness and fixed-point convergence are outside deductive reach']),
